@@ -45,6 +45,26 @@ EPS_EDGE = 1e-7
 NOISE = {"quick": (0.0, 0.01, 0.1), "thorough": (0.0, 0.001, 0.01, 0.1, 0.5)}
 NOISE_CHAIN = (0.0, 0.1)
 
+# ---- argument forms: the same payload presented with another legal dtype / container / memory layout.
+# Integer forms carry integer-valued payload (the generic points scaled by INT_SCALE and rounded, which keeps
+# them in general position); the reference always works in float64 on exactly the values that were passed.
+INT_FORMS = ("i64", "i32", "i16", "u8")
+DTYPE_FORMS = ("f32",) + INT_FORMS
+CONTAINER_FORMS = ("list", "tuple", "ro", "nc", "fortran")
+ALL_FORMS = DTYPE_FORMS + CONTAINER_FORMS
+NP_DTYPE = {"f32": np.float32, "i64": np.int64, "i32": np.int32, "i16": np.int16, "u8": np.uint8}
+INT_SCALE = 4.0
+F32_K = 1e5  # float32 letters: every tolerance is multiplied by this (1e-3 .. 1e-4 relative)
+FORM_PAIRS = (
+    [("f64", x) for x in ALL_FORMS]
+    + [(x, "f64") for x in ALL_FORMS]
+    + [(x, x) for x in DTYPE_FORMS]
+    + [("i64", "f32"), ("f32", "i64"), ("npopt", "f64")]
+)
+FORM_FAMILIES = ("tr", "sc", "rot", "simrefl", "aff", "arb")
+NOISE_FORM = (0.0, 0.1)
+OPTION_CLASSES = ("RotM", "SimM", "SimNR", "SimNRM", "GPAM")
+
 HOMOG = ("Tr", "US", "Rot", "RotM", "Sim", "SimM", "SimNR", "SimNRM", "Aff")
 TPS = ("TPS", "TPS2")
 PWA = ("PWApy-ccw", "PWApy-cw", "PWApy-mixed", "PWAc-ccw", "PWApy-pc", "PWA-pc")
@@ -388,6 +408,18 @@ def ref_pwa(s, t, tri, pts):
     return out
 
 
+def edge_margin(s, tri, p):
+    """smallest barycentric coordinate of p over the triangles that contain it (0 = on an edge or vertex)."""
+    best = None
+    for a, b, c in tri:
+        m = np.array([s[b] - s[a], s[c] - s[a]]).T
+        uv = np.linalg.solve(m, p - s[a])
+        w = min(uv[0], uv[1], 1 - uv[0] - uv[1])
+        if w >= -1e-9 and (best is None or w < best):
+            best = w
+    return 1.0 if best is None else abs(best)
+
+
 BARY = [(1 / 3.0, 1 / 3.0, 1 / 3.0), (0.6, 0.3, 0.1), (0.1, 0.1, 0.8), (0.2, 0.7, 0.1), (0.98, 0.01, 0.01), (0.01, 0.495, 0.495), (0.45, 0.1, 0.45)]
 
 
@@ -413,6 +445,45 @@ def wind(p, tri, mode):
     return np.array(out, dtype=int)
 
 
+def cast_values(values, form):
+    """the float64 values as they survive the cast to the form's dtype (identity for container forms)."""
+    if form in NP_DTYPE:
+        return np.asarray(values).astype(NP_DTYPE[form]).astype(float)
+    return np.array(values, dtype=float)
+
+
+def present(values, form):
+    """(object to hand to PointCloud / TriMesh, copy flag) for one argument form of a float64 value array."""
+    v = np.array(values, dtype=float)
+    if form in NP_DTYPE:
+        return v.astype(NP_DTYPE[form]), True
+    if form == "list":
+        return v.tolist(), True
+    if form == "tuple":
+        return tuple(tuple(r) for r in v.tolist()), True
+    if form == "ro":
+        v.setflags(write=False)
+        return v, False
+    if form == "nc":
+        big = np.zeros((v.shape[0], 2 * v.shape[1]))
+        big[:, ::2] = v
+        return big[:, ::2], False
+    if form == "fortran":
+        return np.asfortranarray(v), False
+    return v, True
+
+
+def present_trilist(tri, form):
+    tri = np.array(tri, dtype=int)
+    if form in ("i32", "i16", "u8", "i64"):
+        return tri.astype(NP_DTYPE[form])
+    if form == "list":
+        return tri.tolist()
+    if form == "tuple":
+        return tuple(tuple(r) for r in tri.tolist())
+    return tri
+
+
 # ------------------------------------------------------------------------------------------------
 class C07(Check):
     id = "C07"
@@ -421,6 +492,9 @@ class C07(Check):
     def __init__(self, tier, seed):
         Check.__init__(self, tier, seed)
         self._src_cache = {}
+        self._k = 1.0  # tolerance multiplier of the op being checked (float32 letters)
+        self._form = ("f64", "f64")
+        self._exact = True  # the target is exactly member(source) at noise 0 (false when it had to be rounded)
 
     def depth(self):
         return 1 if self.tier == "quick" else 2
@@ -508,10 +582,30 @@ class C07(Check):
         if cls in GPA:
             if level > 0:
                 return []
-            return [("gpa", k, nz) for k in range(len(gpa_triples(d))) for nz in NOISE[self.tier]]
+            out = [("gpa", k, nz) for k in range(len(gpa_triples(d))) for nz in NOISE[self.tier]]
+            for fs, ft in FORM_PAIRS:
+                if not self._form_enabled(cls, fs, ft):
+                    continue
+                for nz in NOISE_FORM:
+                    for k in (0, 4):  # similarity copies / arbitrary shapes
+                        if "u8" in (fs, ft) and k != 4:
+                            continue  # only the arbitrary shapes stay inside the range of the unsigned type
+                        out.append(("gpaf", k, nz, fs, ft))
+            return out
         if level == 0:
             mem = member_letters(d, "full" if self.tier == "quick" else "wide")
-            return [("align", m, nz) for nz in NOISE[self.tier] for m in mem]
+            out = [("align", m, nz) for nz in NOISE[self.tier] for m in mem]
+            # argument forms: the reduced member alphabet presented in every legal form of source / target
+            fmem = [m for m in member_letters(d, "small") if m[0] in FORM_FAMILIES]
+            for fs, ft in FORM_PAIRS:
+                if not self._form_enabled(cls, fs, ft):
+                    continue
+                for nz in NOISE_FORM:
+                    for m in fmem:
+                        if fs == "u8" and ft == "u8" and m[0] not in ("sc", "arb"):
+                            continue  # the image must stay inside the range of the unsigned type
+                        out.append(("alignf", m, nz, fs, ft))
+            return out
         if not st["chain_ok"]:
             self.note("chain:not-expanded(arbitrary-or-noisy-parent)")
             return []
@@ -520,6 +614,54 @@ class C07(Check):
             return []
         self.note("chain:expanded")
         return [("align", m, nz) for nz in NOISE_CHAIN for m in member_letters(d, "small")]
+
+    # ------------------------------------------------------------------ argument forms
+    # (class, form) combinations that the unchanged tree does not accept or mishandles in a way the property
+    # does not cover are not letters; each exclusion is listed with its reason in assumptions()
+    FORM_EXCLUDED = {
+        # (class group or letter, source form, target form) with "*" = any; reasons: narrow / unsigned integer
+        # arithmetic wraps around inside menpo on the unchanged tree (reported, not part of the property text)
+        ("Rot", "u8", "u8"): "target.T . source is computed in uint8 and wraps",
+        ("RotM", "u8", "u8"): "target.T . source is computed in uint8 and wraps",
+        ("Aff", "u8", "*"): "the normal equations a a^T are computed in uint8 and wrap",
+        ("PWA", "u8", "*"): "source edge vectors are differences of unsigned integers and wrap",
+        ("PWA", "*", "u8"): "target edge vectors are differences of unsigned integers and wrap",
+        ("PWA", "i16", "*"): "dot_jj * dot_kk overflows int16",
+        ("PWA", "f32", "*"): "barycentric coordinates are computed in float32: vertices of the source mesh itself fall outside every triangle by ~1e-8 (TriangleContainmentError)",
+    }
+
+    def _form_enabled(self, cls, fs, ft):
+        if fs == "npopt":
+            return cls in OPTION_CLASSES
+        if cls in GPA and cls != "GPAT" and ft != "f64":
+            return False  # no target argument
+        grp = "PWA" if cls in PWA else "TPS" if cls in TPS else "GPA" if cls in GPA else cls
+        for key in ((grp, fs, ft), (grp, fs, "*"), (grp, "*", ft)):
+            if key in self.FORM_EXCLUDED:
+                return False
+        return True
+
+    def _form_pair(self, s0, member, noise, fs, ft):
+        """float64 value arrays (source, target) of the pair presented in forms (fs, ft): exactly the values that
+        survive the casts, so that the reference is computed from what menpo was really given."""
+        n, d = s0.shape
+        int_s, int_t = fs in INT_FORMS, ft in INT_FORMS
+        k = INT_SCALE if (int_s or int_t) else 1.0
+        nz = noise * k * self._noise_dir(n, d)
+        h = member_h(member, d)
+        arb = None if h is not None else k * self._source(d, "g%d" % n, salt=("c07-arb", member[1]))
+        if int_t and not int_s:
+            # integer target, non-integer source: source = member^-1(target) (+ noise)
+            t = np.rint(k * s0 if h is not None else arb)
+            s = (k * s0 if h is None else apply_h(np.linalg.inv(h), t)) + nz
+            s = cast_values(s, fs)
+        else:
+            s = cast_values(np.rint(k * s0) if int_s else s0, fs)
+            t = (arb if h is None else apply_h(h, s)) + nz
+            if int_t:
+                t = np.rint(t)
+        t = cast_values(t, ft)
+        return s, t
 
     # ------------------------------------------------------------------ targets
     def _noise_dir(self, n, d, salt=0):
@@ -535,13 +677,16 @@ class C07(Check):
         return base + noise * self._noise_dir(n, d, salt)
 
     # ------------------------------------------------------------------ construction
-    def _construct(self, cls, s, t, tri):
+    def _construct(self, cls, s, t, tri, fs="f64", ft="f64"):
         import menpo.transform as mt
         from menpo.shape import PointCloud, TriMesh
         from menpo.transform.piecewiseaffine.base import CachedPWA, PythonPWA
         from menpo.transform.rbf import R2LogRRBF
 
-        src, tgt = PointCloud(s.copy()), PointCloud(t.copy())
+        ps, cs = present(s, fs)
+        pt, ct = present(t, ft)
+        src, tgt = PointCloud(ps, copy=cs), PointCloud(pt, copy=ct)
+        true_, false_ = (np.bool_(True), np.bool_(False)) if fs == "npopt" else (True, False)
         if cls == "Tr":
             al = mt.AlignmentTranslation(src, tgt)
         elif cls == "US":
@@ -549,9 +694,10 @@ class C07(Check):
         elif cls == "Rot":
             al = mt.AlignmentRotation(src, tgt)
         elif cls == "RotM":
-            al = mt.AlignmentRotation(src, tgt, allow_mirror=True)
+            al = mt.AlignmentRotation(src, tgt, allow_mirror=true_)
         elif cls in SIMILARITY_OPTS:
             rot, mir = SIMILARITY_OPTS[cls]
+            rot, mir = (true_ if rot else false_), (true_ if mir else false_)
             if cls == "Sim":
                 al = mt.AlignmentSimilarity(src, tgt)  # the defaults
             else:
@@ -565,7 +711,7 @@ class C07(Check):
         elif cls in PWA:
             kind, srck = cls.split("-")
             if srck != "pc":
-                src = TriMesh(s.copy(), trilist=wind(s, tri, srck))
+                src = TriMesh(ps, trilist=present_trilist(wind(s, tri, srck), fs), copy=cs)
             klass = {"PWApy": PythonPWA, "PWAc": CachedPWA, "PWA": mt.PiecewiseAffine}[kind]
             al = klass(src, tgt)
         else:
@@ -574,13 +720,26 @@ class C07(Check):
 
     # ------------------------------------------------------------------ step
     def apply(self, st, op, verify=True):
-        if op[0] == "gpa":
+        if op[0] in ("gpa", "gpaf"):
             return self._apply_gpa(st, op, verify)
-        _, member, noise = op
         cls, d = st["cls"], st["d"]
-        s = st["S"].copy()
-        t = self._target(s, member, noise)
-        al, src, tgt = self._construct(cls, s, t, st["tri"])
+        if op[0] == "alignf":
+            _, member, noise, fs, ft = op
+            s, t = self._form_pair(st["S"].copy(), member, noise, fs, ft)
+            self._k = F32_K if "f32" in (fs, ft) else 1.0
+            self.note("form:%s>%s" % (fs, ft))
+        else:
+            _, member, noise = op
+            fs = ft = "f64"
+            s = st["S"].copy()
+            t = self._target(s, member, noise)
+            self._k = 1.0
+        self._form = (fs, ft)
+        self._exact = not (ft in INT_FORMS and fs in INT_FORMS)
+        tri = st["tri"]
+        if op[0] == "alignf" and tri is not None:
+            tri = delaunay(s)  # the presented source is a rounded / inverse-mapped copy: triangulate what is passed
+        al, src, tgt = self._construct(cls, s, t, tri, fs, ft)
         fails = []
         if verify:
             fails = self._oracle(cls, d, al, src, tgt, s, t, member, noise, st)
@@ -593,8 +752,12 @@ class C07(Check):
         st["level"] += 1
         # deeper levels: only behind an affine family member with noise 0 or 0.1 (the image of a general-position
         # source under such a map is again in general position; the guard is re-evaluated on the real output)
-        st["chain_ok"] = member[0] != "arb" and noise in NOISE_CHAIN
+        st["chain_ok"] = member[0] != "arb" and noise in NOISE_CHAIN and op[0] == "align"
         return fails
+
+    def _t(self, tol):
+        """tolerance of the current op: as stated for float64 payload; float32 letters: 1e-3 .. 1e-4 relative."""
+        return tol if self._k == 1.0 else max(tol * self._k, 1e-4)
 
     def _worst(self, tag, err):
         """bucketed record of the largest error seen per clause (evidence for the tolerance margins)."""
@@ -602,7 +765,7 @@ class C07(Check):
             b = "0"
         else:
             b = "1e%+03d" % int(math.ceil(math.log10(err)))
-        self.note("worst:%s:%s" % (tag, b))
+        self.note("worst%s:%s:%s" % ("-f32" if self._k > 1 else "", tag, b))
 
     def _oracle(self, cls, d, al, src, tgt, s, t, member, noise, st):
         where = "%s/%dd" % (cls, d)
@@ -629,11 +792,12 @@ class C07(Check):
                 raise
             bad("interpolate", "the source landmarks themselves are rejected as outside the source triangles: %r" % (getattr(ex, "points_outside_source_domain", None),))
             return fails
-        if not (np.array_equal(a1, a2) and np.array_equal(a1, a3)):
+        baseline = self._form == ("f64", "f64")
+        if (not (np.array_equal(a1, a2) and np.array_equal(a1, a3))) if baseline else (a1.shape != a2.shape or a1.shape != a3.shape or max(np.abs(a1 - a2).max(), np.abs(a1 - a3).max()) > self._t(TOL_ID) * scl * 10):
             bad("aligned-source", "aligned_source() / apply(source) / apply(source points) differ by %.3g" % max(np.abs(a1 - a2).max(), np.abs(a1 - a3).max()))
         err = float(al.alignment_error())
         err_ref = fro(t - a1)
-        if abs(err - err_ref) > TOL_ID * scl * (1 + err_ref):
+        if abs(err - err_ref) > self._t(TOL_ID) * scl * (1 + err_ref):
             bad("alignment-error", "alignment_error()=%.12g but |target - apply(source)|=%.12g" % (err, err_ref))
         self.note("error:%s" % ("zero" if err_ref < 1e-9 * scl else "nonzero"))
         if not np.array_equal(src.points, s) or not np.array_equal(tgt.points, t):
@@ -645,34 +809,34 @@ class C07(Check):
             h = np.asarray(al.h_matrix)
             bottom = np.zeros(d + 1)
             bottom[-1] = 1.0
-            if h.shape != (d + 1, d + 1) or np.abs(h[d] - bottom).max() > TOL_ID:
+            if h.shape != (d + 1, d + 1) or np.abs(h[d] - bottom).max() > (TOL_ID if self._k == 1.0 else 1e-3):
                 bad("homogeneous-form", "h_matrix bottom row %r" % (h[d] if h.ndim == 2 else h,))
                 return fails
             e = np.abs(apply_h(h, s) - a1).max()
             self._worst("apply-vs-h_matrix", e / scl)
-            if e > TOL_ID * scl * 10:
+            if e > self._t(TOL_ID) * scl * 10:
                 bad("aligned-source", "apply(source) differs from h_matrix applied to the source by %.3g" % e)
             in_family = hm is not None and (member[0] in FAMILY[cls] or is_identity(member))
-            if in_family and noise == 0.0:
+            if in_family and noise == 0.0 and self._exact:
                 e = np.abs(h - hm).max()
                 self._worst("recover:" + cls, e / scl)
                 self.note("recover:%s" % cls)
-                if e > TOL_RECOVER * scl:
+                if e > self._t(TOL_RECOVER) * scl:
                     bad("recover", "target = member(source) exactly, but h_matrix differs from the member by %.3g\nexpected\n%r\ngot\n%r" % (e, hm, h))
             fails.extend(self._homog_clauses(cls, d, where, h, s, t, a1, err_ref, scl, member, noise))
         elif cls in TPS:
             e = np.abs(a1 - t).max()
             self._worst("tps-interpolation", e / scl)
             self.note("tps:interpolates")
-            if e > TOL_TPS * scl:
+            if e > self._t(TOL_TPS) * scl:
                 bad("interpolate", "apply(source) misses the target landmarks by %.3g" % e)
-            if hm is not None and noise == 0.0:
+            if hm is not None and noise == 0.0 and self._exact:
                 probes = np.vstack([self._source(2, "g6", salt="c07-probe"), s.mean(axis=0)[None]])
                 got = np.asarray(al.apply(probes.copy()))
                 e = np.abs(got - apply_h(hm, probes)).max()
                 self._worst("recover:" + cls, e / scl)
                 self.note("recover:%s" % cls)
-                if e > TOL_TPS * scl * 10:
+                if e > self._t(TOL_TPS) * scl * 10:
                     bad("recover", "target is an affine image of the source, but the spline differs from that affine map by %.3g on the probe points" % e)
         elif cls in PWA:
             fails.extend(self._pwa_clauses(cls, where, al, s, t, a1, scl, member, noise, hm))
@@ -692,7 +856,7 @@ class C07(Check):
             ref[:d, d] = t.mean(axis=0) - s.mean(axis=0)
             e = np.abs(h - ref).max()
             self._worst("closed-form:Tr", e / scl)
-            if e > TOL_CLOSED * scl:
+            if e > self._t(TOL_CLOSED) * scl:
                 bad("closed-form", "translation %r, centroid difference %r" % (tr, ref[:d, d]))
             fails.extend(self._param_grid(where, h, [(i, d) for i in range(d)], s, t, err, scl, member, noise))
         elif cls == "US":
@@ -701,17 +865,17 @@ class C07(Check):
             ref[:d, :d] *= fro(t0) / fro(s0)
             e = np.abs(h - ref).max()
             self._worst("closed-form:US", e)
-            if e > TOL_CLOSED * max(1.0, ref[0, 0]):
+            if e > self._t(TOL_CLOSED) * max(1.0, ref[0, 0]):
                 bad("closed-form", "scale matrix\n%r\nexpected factor %.12g (ratio of the centred norms)" % (h, ref[0, 0]))
             size = fro(a1 - a1.mean(axis=0))
             self.note("size:US")
-            if abs(size - fro(t0)) > TOL_CLOSED * scl:
+            if abs(size - fro(t0)) > self._t(TOL_CLOSED) * scl:
                 bad("size", "|aligned source| = %.12g but |target| = %.12g" % (size, fro(t0)))
         elif cls in ("Rot", "RotM"):
             mirror = cls == "RotM"
             det = float(np.linalg.det(lin))
             orth = np.abs(lin.dot(lin.T) - np.eye(d)).max()
-            if orth > 1e-10 or tr.any():
+            if orth > 1e-10 * self._k or tr.any():
                 bad("orthogonal", "linear part is not orthogonal (%.3g) or a translation is present %r" % (orth, tr))
             if not mirror and det < 0:
                 bad("proper-rotation", "mirroring was not allowed but det = %.6g" % det)
@@ -725,10 +889,10 @@ class C07(Check):
             ref = ref_affine(s, t)
             e = np.abs(h - ref).max()
             self._worst("closed-form:Aff", e / scl)
-            if e > TOL_RECOVER * scl:
+            if e > self._t(TOL_RECOVER) * scl:
                 bad("closed-form", "h_matrix differs from the least-squares solution by %.3g\nexpected\n%r\ngot\n%r" % (e, ref, h))
             eref = fro(apply_h(ref, s) - t)
-            if err > eref + TOL_GRID * scl:
+            if err > eref + self._t(TOL_GRID) * scl:
                 bad("least-squares", "error %.12g, the least-squares affine map reaches %.12g" % (err, eref))
             fails.extend(self._param_grid(where, h, [(i, j) for i in range(d) for j in range(d + 1)], s, t, err, scl, member, noise))
         return fails
@@ -742,7 +906,7 @@ class C07(Check):
                     h2 = h.copy()
                     h2[i, j] += sg * delta
                     e2 = fro(apply_h(h2, s) - t)
-                    if e2 < err - TOL_GRID * scl and (worst is None or e2 < worst[0]):
+                    if e2 < err - self._t(TOL_GRID) * scl and (worst is None or e2 < worst[0]):
                         worst = (e2, i, j, sg * delta)
         self.note("optimal:param-grid")
         if worst is not None:
@@ -758,17 +922,17 @@ class C07(Check):
         def bad(clause, detail):
             fails.append(Failure(where, clause, "member=%r noise=%r n=%d: %s" % (member, noise, n, detail)))
 
-        if err > eref + TOL_GRID * scl:
+        if err > eref + self._t(TOL_GRID) * scl:
             bad("least-squares", "error %.12g, the closed-form optimal rotation reaches %.12g" % (err, eref))
         gmin = grid_min_error(scale * s, t, mirror)
         self.note("optimal:rotation-grid:%dd" % s.shape[1])
-        if err > gmin + TOL_GRID * scl:
+        if err > gmin + self._t(TOL_GRID) * scl:
             bad("grid-optimal", "error %.12g, a rotation of the competitor grid reaches %.12g" % (err, gmin))
         if gap >= MIN_GAP:
             e = np.abs(lin - scale * rref).max() / max(scale, 1e-300)
             self._worst("closed-form:rotation", e * gap)
             self.note("rot:matrix-compared")
-            if e > TOL_CLOSED / gap:
+            if e > self._t(TOL_CLOSED) / gap:
                 bad("closed-form", "rotation differs from the closed-form least-squares rotation by %.3g (gap %.3g)\nexpected\n%r\ngot\n%r" % (e, gap, scale * rref, lin))
         else:
             self.note("rot:ill-conditioned(matrix-not-compared)")
@@ -786,17 +950,17 @@ class C07(Check):
         s0, t0 = s - cs, t - ct
         ca = a1.mean(axis=0)
         self.note("centroid+size:%s" % tag)
-        if np.abs(ca - ct).max() > TOL_CLOSED * scl:
+        if np.abs(ca - ct).max() > self._t(TOL_CLOSED) * scl:
             bad("centroid", "centroid of the aligned source %r, of the target %r" % (ca, ct))
         size = fro(a1 - ca)
-        if abs(size - fro(t0)) > TOL_CLOSED * scl:
+        if abs(size - fro(t0)) > self._t(TOL_CLOSED) * scl:
             bad("size", "|aligned source| = %.12g but |target| = %.12g" % (size, fro(t0)))
         href, scale, gap, improper = ref_similarity(s, t, rotation, mirror)
         # the linear part is scale * orthogonal
         q = lin / scale
         orth = np.abs(q.dot(q.T) - np.eye(d)).max()
         det = float(np.linalg.det(q))
-        if orth > 1e-9:
+        if orth > 1e-9 * self._k:
             bad("orthogonal", "linear part / (|target|/|source|) is not orthogonal (%.3g)" % orth)
         if not mirror and det < 0:
             bad("proper-rotation", "mirroring was not allowed but det = %.6g" % det)
@@ -804,7 +968,7 @@ class C07(Check):
             e = np.abs(h - href).max()
             self._worst("closed-form:similarity-no-rotation", e / scl)
             self.note("sim:no-rotation")
-            if e > TOL_CLOSED * scl:
+            if e > self._t(TOL_CLOSED) * scl:
                 bad("closed-form", "rotation=False: expected scale*identity and centroid matching\n%r\ngot\n%r" % (href, h))
             return fails
         eref = fro(apply_h(href, s) - t)
@@ -814,7 +978,7 @@ class C07(Check):
         if gap >= MIN_GAP:
             e = np.abs(h - href).max()
             self._worst("closed-form:similarity", e * gap / scl)
-            if e > TOL_CLOSED * scl * max(1.0, scale) / gap:
+            if e > self._t(TOL_CLOSED) * scl * max(1.0, scale) / gap:
                 bad("closed-form", "h_matrix differs from centre/scale/least-squares-rotation reference by %.3g\nexpected\n%r\ngot\n%r" % (e, href, h))
         self.note("rot:%s:%s-target:det%+d" % ("mirror-allowed" if mirror else "mirror-forbidden", "reflected" if member[0] in ("refl", "simrefl") else "other", 1 if det > 0 else -1))
         return fails
@@ -830,7 +994,7 @@ class C07(Check):
         e = np.abs(a1 - t).max()
         self._worst("pwa-interpolation", e / scl)
         self.note("pwa:interpolates")
-        if e > TOL_PWA * scl:
+        if e > self._t(TOL_PWA) * scl:
             bad("interpolate", "apply(source) misses the target landmarks by %.3g" % e)
         tri = np.asarray(al.trilist)
         if tri.ndim != 2 or tri.shape[1] != 3 or tri.min() < 0 or tri.max() >= n:
@@ -856,7 +1020,7 @@ class C07(Check):
         e = np.abs(got - exp).max()
         self._worst("pwa-triangle-affine", e / (scl * max(1.0, lip)))
         self.note("pwa:triangle-affine")
-        if e > TOL_PWA_IN * scl * max(1.0, lip):
+        if e > self._t(TOL_PWA_IN) * scl * max(1.0, lip):
             k = int(np.abs(got - exp).max(axis=1).argmax())
             bad("triangle-affine", "triangle %r weights %r: expected %r got %r" % (tuple(tri[k // len(BARY)]), BARY[k % len(BARY)], exp[k], got[k]))
         # the same through PointCloud / one point at a time (no batch or cache effect on the value)
@@ -874,22 +1038,23 @@ class C07(Check):
             mid = 0.5 * (s[i] + s[j])
             nrm = np.array([-(s[j] - s[i])[1], (s[j] - s[i])[0]])
             nrm = nrm / np.linalg.norm(nrm)
-            pp = np.array([mid + EPS_EDGE * nrm, mid - EPS_EDGE * nrm, mid + 0.3 * EPS_EDGE * nrm])
+            eps = EPS_EDGE if self._k == 1.0 else 1e-3  # float32 sources resolve ~1e-6 of the coordinates
+            pp = np.array([mid + eps * nrm, mid - eps * nrm, mid + 0.3 * eps * nrm])
             gotp = np.asarray(al.apply(pp.copy()))
             refp = ref_pwa(s, t, tri, pp)
             jump = np.abs(gotp[0] - gotp[1]).max()
             self.note("pwa:shared-edge")
-            if jump > 2 * EPS_EDGE * lip * 2 + 1e-12 * scl:
-                bad("edge-continuous", "edge (%d,%d): images of midpoint +- %g n differ by %.3g (Lipschitz bound %.3g)" % (i, j, EPS_EDGE, jump, lip))
+            if jump > 2 * eps * lip * 2 + self._t(1e-12) * scl:
+                bad("edge-continuous", "edge (%d,%d): images of midpoint +- %g n differ by %.3g (Lipschitz bound %.3g)" % (i, j, eps, jump, lip))
             for g, r in zip(gotp, refp):
-                if r is None or np.abs(g - r).max() > TOL_PWA_IN * scl * max(1.0, lip):
+                if r is None or np.abs(g - r).max() > self._t(TOL_PWA_IN) * scl * max(1.0, lip):
                     bad("triangle-affine", "near edge (%d,%d): expected %r got %r" % (i, j, r, g))
                     break
             # the edge midpoint itself belongs to both triangles: either gives the midpoint of the target edge
             try:
                 gm = np.asarray(al.apply(mid[None].copy()))[0]
                 self.note("pwa:edge-midpoint:mapped")
-                if np.abs(gm - 0.5 * (t[i] + t[j])).max() > TOL_PWA_IN * scl * max(1.0, lip):
+                if np.abs(gm - 0.5 * (t[i] + t[j])).max() > self._t(TOL_PWA_IN) * scl * max(1.0, lip):
                     bad("edge-continuous", "edge (%d,%d): midpoint maps to %r, target edge midpoint %r" % (i, j, gm, 0.5 * (t[i] + t[j])))
             except Exception as ex:  # noqa - a rounding-level containment miss on the edge itself is only counted
                 if type(ex).__name__ != "TriangleContainmentError":
@@ -898,20 +1063,32 @@ class C07(Check):
         if not shared:
             self.note("pwa:no-shared-edge")
         # (c) member of the family: an affine image is reproduced everywhere in the domain
-        if hm is not None and noise == 0.0:
+        if hm is not None and noise == 0.0 and self._exact:
             e = np.abs(got - apply_h(hm, pts)).max()
             self._worst("recover:" + cls, e / scl)
             self.note("recover:%s" % cls)
-            if e > TOL_RECOVER * scl:
+            if e > self._t(TOL_RECOVER) * scl:
                 bad("recover", "target is an affine image of the source, but the warp differs from that map by %.3g inside the domain" % e)
-        # (d) points of the convex hull are mapped by the triangle that contains them (reference search)
+        # (d) points of the convex hull are mapped by the triangle that contains them (reference search); a point
+        # that lies on a triangle edge to rounding may be refused (counted, like the edge midpoints above)
         hullp = np.array([s.mean(axis=0), 0.5 * s.mean(axis=0) + 0.5 * s[0], 0.7 * s.mean(axis=0) + 0.3 * s[-1]])
         refh = ref_pwa(s, t, tri, hullp)
-        if all(r is not None for r in refh):
-            goth = np.asarray(al.apply(hullp.copy()))
+        for p_, r_ in zip(hullp, refh):
+            if r_ is None:
+                continue
+            try:
+                g_ = np.asarray(al.apply(p_[None].copy()))[0]
+            except Exception as ex:  # noqa
+                if type(ex).__name__ != "TriangleContainmentError":
+                    raise
+                if edge_margin(s, tri, p_) < 1e-9:
+                    self.note("pwa:hull-point-on-edge:TriangleContainmentError")
+                else:
+                    bad("triangle-affine", "point %r strictly inside a source triangle is rejected as outside the domain" % (p_,))
+                continue
             self.note("pwa:hull-points")
-            if np.abs(goth - np.array(refh)).max() > TOL_PWA_IN * scl * max(1.0, lip):
-                bad("triangle-affine", "points of the convex hull: expected %r got %r" % (refh, goth))
+            if np.abs(g_ - r_).max() > self._t(TOL_PWA_IN) * scl * max(1.0, lip):
+                bad("triangle-affine", "point %r of the convex hull: expected %r got %r" % (p_, r_, g_))
         return fails
 
     @staticmethod
@@ -930,18 +1107,41 @@ class C07(Check):
         from menpo.transform import GeneralizedProcrustesAnalysis
 
         cls, d = st["cls"], st["d"]
-        _, k, noise = op
+        if op[0] == "gpaf":
+            _, k, noise, fs, ft = op
+            self.note("form:%s>%s" % (fs, ft))
+        else:
+            _, k, noise = op
+            fs = ft = "f64"
+        self._k = F32_K if "f32" in (fs, ft) else 1.0
+        self._form = (fs, ft)
         name, triple = gpa_triples(d)[k]
         base = st["S"].copy()
-        shapes = [self._target(base, m, noise, salt=i + 1) for i, m in enumerate(triple)]
-        pcs = [PointCloud(x.copy()) for x in shapes]
+        ints = fs in INT_FORMS or ft in INT_FORMS
+        kk = INT_SCALE if ints else 1.0
+        if ints:
+            base = np.rint(kk * base)
+        shapes = []
+        for i, m in enumerate(triple):
+            if member_h(m, d) is None:
+                x = kk * self._source(d, "g%d" % len(base), salt=("c07-arb", m[1])) + noise * kk * self._noise_dir(len(base), d, i + 1)
+            else:
+                x = self._target(base, m, noise * kk, salt=i + 1)
+            shapes.append(cast_values(np.rint(x) if fs in INT_FORMS else x, fs))
+        self._exact = fs not in INT_FORMS
+        pcs = []
+        for x in shapes:
+            px, cx = present(x, fs)
+            pcs.append(PointCloud(px, copy=cx))
         mirror = cls == "GPAM"
         given = None
         if cls == "GPAT":
-            given = PointCloud(base.copy())
+            base = cast_values(base, ft)
+            pb, cb = present(base, ft)
+            given = PointCloud(pb, copy=cb)
             gpa = GeneralizedProcrustesAnalysis(pcs, target=given)
         elif mirror:
-            gpa = GeneralizedProcrustesAnalysis(pcs, allow_mirror=True)
+            gpa = GeneralizedProcrustesAnalysis(pcs, allow_mirror=np.bool_(True) if fs == "npopt" else True)
         else:
             gpa = GeneralizedProcrustesAnalysis(pcs)
         st["level"] += 1
@@ -980,31 +1180,31 @@ class C07(Check):
             scl = max(1.0, float(np.abs(x).max()), float(np.abs(tp).max()))
             e = float(tr.alignment_error())
             eref = fro(tp - a1)
-            if abs(e - eref) > TOL_ID * scl * (1 + eref):
+            if abs(e - eref) > self._t(TOL_ID) * scl * (1 + eref):
                 bad("alignment-error", "transform %d: alignment_error()=%.12g but |target - aligned|=%.12g" % (i, e, eref))
             h = np.asarray(tr.h_matrix)
-            if np.abs(apply_h(h, x) - a1).max() > TOL_ID * scl * 10:
+            if np.abs(apply_h(h, x) - a1).max() > self._t(TOL_ID) * scl * 10:
                 bad("aligned-source", "transform %d: apply(source) differs from h_matrix applied to the source" % i)
             sub = self._similarity_clauses(where, h, x, tp, a1, eref, True, mirror, scl, triple[i], noise, tag="GPA")
             fails.extend(sub)
             aligned.append(a1)
             errs.append(eref)
         mae = float(gpa.mean_alignment_error())
-        if abs(mae - sum(errs) / 3.0) > 1e-10 * (1 + mae):
+        if abs(mae - sum(errs) / 3.0) > 1e-10 * self._k * (1 + mae):
             bad("alignment-error", "mean_alignment_error()=%.12g, mean of the three errors %.12g" % (mae, sum(errs) / 3.0))
         similar = all(m[0] in ("tr", "sc", "rot", "sim", "simnr") or (mirror and m[0] in ("refl", "simrefl")) for m in triple)
-        if similar and noise == 0.0 and given is None:
+        if similar and noise == 0.0 and self._exact and given is None:
             spread = max(np.abs(aligned[i] - aligned[0]).max() for i in (1, 2))
             off = max(np.abs(a - tg).max() for a in aligned)
             self._worst("recover:GPA", max(spread, off))
             self.note("recover:%s" % cls)
-            if spread > TOL_RECOVER * 10 or off > 1e-5:
+            if spread > self._t(TOL_RECOVER) * 10 or off > 1e-5 * self._k:
                 bad("recover", "the sources are similarity copies of one shape but the aligned sources differ by %.3g (from the target by %.3g)" % (spread, off))
-        elif similar and noise == 0.0:
+        elif similar and noise == 0.0 and self._exact:
             # a given target that is itself a similarity copy: every source lands exactly on the converged target
             spread = max(np.abs(aligned[i] - aligned[0]).max() for i in (1, 2))
             self.note("recover:%s" % cls)
-            if spread > TOL_RECOVER * 10:
+            if spread > self._t(TOL_RECOVER) * 10:
                 bad("recover", "the sources are similarity copies of one shape but the aligned sources differ by %.3g" % spread)
         else:
             self.note("gpa:not-copies")
